@@ -454,5 +454,62 @@ def run(rep: Report, tier: str) -> None:
                        "re-typing one of its components in place makes a later statement's declared types disagree with the data")
     from sa.checks.c12 import operand_mutations as _operand_mutations
     _operand_mutations(P, rep, "R10.11", ("vtlengine.Operators.Analytic", "vtlengine.Operators.Aggregation", "vtlengine.Operators.Time"), floor=3)
+    # ---- R10.12: dataset-level analytic operators deliver the measures semantic analysis declares ----
+    rep.rule("R10.12", "dataset-level analytic operators: the measures Analytic.validate declares == the measure columns of the generated SELECT, for one and two operand measures")
+    analytic_measures_agree(P, rep, "R10.12")
     rep.assumptions = ["structure objects are changed only through attribute stores / dict mutation of .components (no setattr/__dict__ tricks: none exist in the package)",
                        "values, uniqueness and nullability of the DATA are produced by DuckDB and are not decided here"]
+
+
+def analytic_measures_agree(P: Program, rep: Report, rule: str) -> None:
+    """Dataset-level analytic operators: the measures Analytic.validate declares for the result (count over at most one measure is renamed
+    to int_var, otherwise every measure keeps its name) are exactly the measure columns the SELECT of _visit_analytic_dataset delivers,
+    for 1 and 2 operand measures.  Both sides are the repository's code, evaluated on abstract structures.  Shared with C06."""
+    import re as _re
+    from sa import structmodel as _sm
+    from sa.e6 import ClassVal as _CV, ExternalObj as _EO, Interp as _I, Raised as _R, Unmodelled as _U
+    M = _sm.Model(P)
+    fv = P.func("vtlengine.Operators.Analytic.Analytic.validate")
+    ft = P.func(_sm.TRQ + "._visit_analytic_dataset")
+    n = 0
+    for cls_name in ("Count", "Sum", "Avg", "Max", "FirstValue"):
+        cq = f"vtlengine.Operators.Analytic.{cls_name}"
+        if cq not in P.classes:
+            raise AnalysisError(f"{rule}: analytic operator class {cls_name} vanished")
+        tok = _I(P).eval(ast.parse("op", mode="eval").body, {"op": None}, fv) if False else None
+        got_tok = P.lookup_attr(P.classes[cq], "op")
+        tok = _I(P).eval(got_tok[1], {}, fv) if got_tok else None
+        for nmeas in (1, 2):
+            ds = M.ds("DS_1", ["Id_1", "Id_2"], ["Me_1", "Me_2"][:nmeas])
+            ext_v = {"Dataset": M.mk_dataset, "isinstance": _sm._isinstance, "VirtualCounter._new_ds_name": lambda: "__VDS__", "unary_implicit_promotion": lambda a, b=None, c=None: a,
+                     "copy": lambda x: _sm.MComp(x.name, x.role, x.data_type, x.nullable) if isinstance(x, _sm.MComp) else x,
+                     "Component": lambda **kw: _sm.MComp(kw["name"], kw["role"], kw.get("data_type"), kw.get("nullable", True))}
+            try:
+                sem = _I(P, externals=ext_v, max_steps=40000).call(fv, {"operand": ds, "partitioning": ["Id_1"], "ordering": None, "window": None, "params": None, "component_name": None},
+                                                                   bound_cls=_CV(cq))
+                declared = sorted(k for k, c in sem.components.items() if c.role == M.roles["MEASURE"])
+            except _R as r:
+                declared = [f"<raises {getattr(r.exc, 'code', None)}>"]
+            except _U as e:
+                raise AnalysisError(f"{rule}: Analytic.validate outside the evaluator's language ({cls_name}): {e}")
+            out = M.ds("DS_r", ["Id_1", "Id_2"], declared if not declared[0].startswith("<") else [])
+            me = _sm.MTranspiler()
+            me.input_datasets = {"DS_1": ds}
+            ext_t = {"self._build_over_clause": lambda nd: 'PARTITION BY "Id_1"', "self._build_analytic_expr": lambda op, c, nd: f"F({c})", "self._resolve_partition_cols": lambda nd: ["Id_1"],
+                     "get_current_registry": lambda: _EO({"rule_for": lambda c: None}), "self._get_dataset_structure": lambda nd: ds, "self._get_dataset_sql": lambda nd: '"DS_1"',
+                     "self._get_output_dataset": lambda: out, "quote_name": lambda x: f'"{x}"', "SQLBuilder": _sm.MBuilder, "isinstance": _sm._isinstance, "self._resolve_udo_name": lambda x: x,
+                     "_add_tp_indicator_check": lambda res, *a: res}
+            try:
+                b = _I(P, externals=ext_t, max_steps=40000).call(ft, {"self": me, "node": _sm.MNode("Analytic", op=tok, operand=_sm.MNode("VarID", value="DS_1"), partition_by=["Id_1"],
+                                                                                                     order_by=None, window=None, params=None), "op": tok})
+            except (_R, _U) as e:
+                raise AnalysisError(f"{rule}: _visit_analytic_dataset outside the evaluator's language ({cls_name}): {e}")
+            cols = list(getattr(b, "cols", []))
+            delivered = sorted(_re.findall(r'AS "([^"]+)"\s*$', c_)[0] if _re.search(r'AS "([^"]+)"\s*$', c_) else c_.strip('"') for c_ in cols if c_.strip('"') not in ("Id_1", "Id_2"))
+            n += 1
+            rep.instance(rule, f"analytic/{cls_name}/{nmeas}-measures", nontrivial=True, sample={"operator": cls_name, "measures": nmeas, "declared": declared, "delivered": delivered})
+            if declared != delivered or len(set(delivered)) != len(delivered):
+                rep.add(Finding(rule, f"{rule}/analytic/{cls_name}/{nmeas}-measures", ft.module.rel, ft.node.lineno, ft.qualname,
+                                f"{cls_name.lower()}(DS_1 over (partition by Id_1)) with {nmeas} measure(s): semantic analysis declares the measures {declared}, the generated SELECT delivers "
+                                f"{delivered}: the fetch projects the declared components, so a measure that is not delivered under its declared name is missing from the returned data"))
+    rep.floor(f"{rule} analytic operator x measure-count cells", n, 10)
